@@ -19,8 +19,8 @@ PROP = dict(
                "filter\" is read as: first level equals \"$share\" up to case folding (the broker's constant is \"$SHARE\" and "
                "TopicsIndex.Subscribe indexes every case variant as a shared subscription); C30_filter_literal covers the "
                "literal reading outside the other case variants.",
-    engines=[dict(hx="valid")],
-    theorems=["C30_filter", "C30_topic", "C30_shared", "C30_filter_literal", "C30_levels_ok_meaning", "C30_split_join"],
+    engines=[dict(hx="valid"), dict(hx="subinvalid")],
+    theorems=["C30_filter", "C30_topic", "C30_shared", "C30_filter_literal", "C30_levels_ok_meaning", "C30_split_join", "C30_suback"],
     model_files="coq/Topics/Valid.v",
     rule="three observations per string (IsValidFilter(s,false), IsValidFilter(s,true), IsSharedFilter(s)); strings: every "
          "string of length <= 6 (thorough 8) over {/,+,#,$,a} (exhaustive), every concatenation of <= 5 (thorough 6) tokens "
